@@ -19,7 +19,8 @@ PROP = dict(
                 'string whose white-space tokens are the tokens of well-formed trees of any depth; every accepted '
                 'dependency string reads back token for token as the input (unbalanced parentheses are rejected); '
                 'String() prints the PMS text; per case Coq evaluates wf, model=obs, spec(obs)',
-    assumptions=['Go regexp semantics of the two regular expressions is modelled by hand-written matchers '
+    assumptions=['constants regenerated from the source on every run (Gen/Consts.v) that the predicate or the documented part of the model rests on -- the character classes of portage/parse/chartype.go and the comparable-version constants of portage/atom (besides the two regular expressions, C14_regex_pinned) -- are compared with literals by theorem C14_constants_pinned: an edit of one of them is reported (proof obligation no longer checks) and has to be reviewed; values the manual does not state are the values of the reviewed tree',
+        'Go regexp semantics of the two regular expressions is modelled by hand-written matchers '
                  '(source texts pinned through Gen/Consts.v and validated by the correspondence on every run)',
                  'the version / slot normal forms (makeComparable and the suffix renaming) are shared between model '
                  'and reference: C14 checks where the text is cut, C13 checks what the normal form means'],
